@@ -282,6 +282,33 @@ class Ctx:
             if any(k is True for k in ks):
                 return True
             return False if all(k is False for k in ks) else None
+        if isinstance(test, ast.Call):
+            cn = call_name(test)
+            if cn == f"{self.selfn}.has_atom" and test.args and \
+                    self.key_valid("_atom_attrs", test.args[0], st):
+                return True
+            if cn == f"{self.selfn}.has_bond" and len(test.args) == 2:
+                a, b = (self.canon(x, st) for x in test.args)
+                if f"bond:{a}|{b}" in st.facts or f"bond:{b}|{a}" in st.facts:
+                    return True
+        if isinstance(test, ast.Compare) and len(test.ops) == 1 and isinstance(
+                test.ops[0], (ast.Eq, ast.NotEq)):
+            a = self.canon(test.left, st)
+            b = self.canon(test.comparators[0], st)
+            if f"distinct:{a}|{b}" in st.facts or f"ne:{a}:{b}" in st.facts:
+                return isinstance(test.ops[0], ast.NotEq)
+            if f"eq:{a}:{b}" in st.facts:
+                return isinstance(test.ops[0], ast.Eq)
+        if isinstance(test, ast.Compare) and len(test.ops) == 1 and isinstance(
+                test.ops[0], (ast.In, ast.NotIn)) and isinstance(
+                test.left, ast.Constant) and isinstance(
+                test.comparators[0], ast.Name):
+            got = [f for f in st.facts if f.startswith(
+                f"kwkeys:{test.comparators[0].id}:")]
+            if got:
+                keys = set(filter(None, got[0].split(":", 2)[2].split(",")))
+                present = test.left.value in keys
+                return present == isinstance(test.ops[0], ast.In)
         if isinstance(test, ast.Compare) and len(test.ops) == 1 and isinstance(
                 test.ops[0], (ast.In, ast.NotIn)):
             slot = self.slot_of(test.comparators[0])
@@ -348,6 +375,12 @@ class Ctx:
         if isinstance(s, (ast.For,)):
             st = self.expr(s.iter, st)
             body_in = st.with_facts(*self.iter_facts(s.target, s.iter, st))
+            # elements of a collection that an earlier loop has validated
+            key = f"@forall:{norm(s.iter)}"
+            if key in st.alias:
+                tgt_txt, facts = st.alias[key]
+                if tgt_txt == norm(s.target):
+                    body_in = body_in.with_facts(*facts)
             body_in.alias = {k: v for k, v in body_in.alias.items()
                              if k not in _names(s.target)}
             out1 = self.block(s.body, body_in)
@@ -358,6 +391,17 @@ class Ctx:
                 out1 = join_states(out1, out2)
             after = join_states(st, State(st.facts, out1.written, dict(st.alias))
                                 if out1 is not None else None)
+            # a pure validation loop (no write) establishes its exit facts
+            # for every element of the iterated collection
+            if out1 is not None and out1.written == st.written and \
+                    isinstance(s.iter, ast.Name) and after is not None:
+                names = _names(s.target)
+                gained = tuple(f for f in out1.facts - st.facts
+                               if _fact_exprs(f) <= names | {
+                                   x for f2 in [f] for x in _fact_exprs(f2)}
+                               and any(_mentions(f, n) for n in names))
+                after = after.copy()
+                after.alias[f"@forall:{norm(s.iter)}"] = (norm(s.target), gained)
             return self.block(s.orelse, after) if s.orelse else after
         if isinstance(s, ast.While):
             st = self.expr(s.test, st)
@@ -674,6 +718,25 @@ class Ctx:
         for k in e.keywords:
             if k.arg:
                 argmap[k.arg] = self.canon(k.value, st)
+        # keys of the callee's **kwargs dictionary, when the call site fixes
+        # them (explicit keywords, or forwarding of a dictionary with known
+        # keys)
+        kwname = target.node.args.kwarg.arg if target.node.args.kwarg else None
+        if kwname:
+            explicit = [k.arg for k in e.keywords if k.arg
+                        and k.arg not in params]
+            stars = [k.value for k in e.keywords if k.arg is None]
+            keys = set(explicit)
+            known = True
+            for sv in stars:
+                got = [f for f in st.facts if f.startswith(
+                    f"kwkeys:{self.canon(sv, st)}:")]
+                if got:
+                    keys |= set(filter(None, got[0].split(":", 2)[2].split(",")))
+                else:
+                    known = False
+            if known:
+                st = st.with_facts(f"kwkeys:{kwname}:{','.join(sorted(keys))}")
         # callee works on a state whose aliases are hidden
         inner = State(st.facts, st.written, {})
         out = self.w.func(target, inner, argmap, None)
@@ -688,6 +751,8 @@ class Ctx:
 
 def _fact_exprs(f: str) -> set[str]:
     kind, _, rest = f.partition(":")
+    if kind == "kwkeys":
+        return {"@kw"}
     if kind == "key":
         _, _, rest = rest.partition(":")
     if kind in ("eq", "ne", "isinstance", "notinstance"):
